@@ -82,11 +82,28 @@ theorem unique_of_tot_le_one (f : Pc â†’ Nat) (ws : List Thread) (h : tot f ws â
         have := ih (by omega) m n hi hj
         omega
 
+/-! `Thread.accept` changes none of the fields the protocol invariants look at -/
+
+@[simp] theorem accept_pc (c : Cfg) (l : Thread) (i : Nat) (w : Thread) (st : List Rec) :
+    (l.accept c i w st).pc = l.pc := rfl
+@[simp] theorem accept_acc (c : Cfg) (l : Thread) (i : Nat) (w : Thread) (st : List Rec) :
+    (l.accept c i w st).acc = l.acc := rfl
+@[simp] theorem accept_kind (c : Cfg) (l : Thread) (i : Nat) (w : Thread) (st : List Rec) :
+    (l.accept c i w st).kind = l.kind := rfl
+@[simp] theorem accept_gres (c : Cfg) (l : Thread) (i : Nat) (w : Thread) (st : List Rec) :
+    (l.accept c i w st).gres = l.gres := rfl
+@[simp] theorem accept_jout (c : Cfg) (l : Thread) (i : Nat) (w : Thread) (st : List Rec) :
+    (l.accept c i w st).jout = l.jout := rfl
+@[simp] theorem accept_pub (c : Cfg) (l : Thread) (i : Nat) (w : Thread) (st : List Rec) :
+    (l.accept c i w st).pub = l.pub := rfl
+
 /-- the counting invariant -/
 structure CInv (s : St) : Prop where
   holders : tot holds s.ws = (if s.token then 1 else 0)
   acks : tot isWA s.ws = tot owed s.ws
   replies : tot isWM s.ws = tot pendReply s.ws
+  /-- `unlockWrite` answers the overflowed writer whatever the result (constant along a run) -/
+  cfgH : s.cfg.handoffOnErr = true
 
 /-- all six sums for one replaced element -/
 theorem tot_set6 (ws : List Thread) (i : Nat) (old new : Thread) (h : ws[i]? = some old) :
